@@ -71,7 +71,10 @@ Section NoLit.
     apply (xfn_xarg_ind sel).
     - intros k a IH [Hg _]. specialize (IH Hg). destruct k; exact IH.
     - intros k a IHa b IHb [Ha [Hb _]]. specialize (IHa Ha). specialize (IHb Hb).
-      destruct k; change (fa_fnarg T_ P_ (arg_ast sel sast a) && fa_fnarg T_ P_ (arg_ast sel sast b) = true);
+      destruct k;
+        [change (fa_fnarg T_ P_ (arg_ast sel sast a) && fa_fnarg T_ P_ (arg_ast sel sast b) = true)
+        |change (fa_fnarg T_ P_ (arg_ast sel sast a) && fa_fnarg T_ P_ (arg_ast sel sast b) = true)
+        |change (fa_fnarg T_ P_ (arg_ast sel sast a) && (fa_fnarg T_ P_ (arg_ast sel sast b) && true) = true)..];
         rewrite IHa, IHb; reflexivity.
     - intros l _. apply lit_ast_nolit.
     - intros abs q Hq. change (Forall (gseg_good sel sgood) q) in Hq.
@@ -225,7 +228,7 @@ Section Fuel.
   Qed.
   Lemma fn1_name_len k : 5 <= length (fn1_name k).
   Proof. destruct k; cbn; lia. Qed.
-  Lemma fn2_name_len k : 5 <= length (fn2_name k).
+  Lemma fn2_name_len k : 2 <= length (fn2_name k).
   Proof. destruct k; cbn; lia. Qed.
 
   Lemma ffuel_len_all :
@@ -340,7 +343,7 @@ Section Depth.
       pose proof (gseg_len_pos sel stext g0). unfold gsegs_text. lia.
   Qed.
 
-  Lemma ftext_len f : 7 <= length (ftext sel stext f).
+  Lemma ftext_len f : 4 <= length (ftext sel stext f).
   Proof.
     destruct f as [k a|k a b].
     - change (ftext sel stext (XFn1 sel k a)) with (fn1_name k ++ 40%N :: argtext sel stext a ++ [41%N]).
